@@ -1789,7 +1789,11 @@ class op(exp):
             # push cst to the right
             if l._is_cst:
                 if r._is_cst:
-                    return self.op(l, r)
+                    # the folded constant stands for this node:
+                    # it keeps the node's sign flag (as op.eval does)
+                    res = self.op(l, r)
+                    res.sf = self.sf
+                    return res
                 if minus:
                     l, r = (-r), l
                     self.op = _operator(OP_ADD)
@@ -2082,7 +2086,10 @@ def eqn1_helpers(e, **kargs):
     "helpers for simplifying unary expressions"
     assert e.op.unary
     if e.r._is_cst:
-        return e.op(e.r)
+        # the folded constant stands for e: it keeps e's sign flag (as uop.eval does)
+        res = e.op(e.r)
+        res.sf = e.sf
+        return res
     if e.r._is_vec:
         return vec([e.op(x) for x in e.r.l])
     if e.r._is_eqn:
@@ -2271,7 +2278,9 @@ def eqn2_helpers(e, bitslice=False, widening=False):
                     cc[i:j] = e.op(p, e.r[i:j])
                 return cc.simplify(bitslice=bitslice)
         elif e.l._is_cst:
-            return e.op(e.l, e.r)
+            res = e.op(e.l, e.r)
+            res.sf = e.sf
+            return res
     if e.l._is_vec:
         return vec([e.op(x, e.r) for x in e.l.l]).simplify(widening=widening)
     if e.r._is_vec:
